@@ -29,7 +29,7 @@ from mc.drivers import files_io as F
 
 ID = "C19"
 LEVEL = "exploration"
-BUDGET = {"quick": 300, "thorough": 1200}
+BUDGET = {"quick": 300, "thorough": 3600}
 CHUNK = 4
 RULE = (
     "one case = one accepted configuration (pipeline skeleton x confidence set x invalid_disparity x disparity form x "
